@@ -152,6 +152,9 @@ func (a *muxAnalysis) addObject(obj *mediaObj, into map[int][]decUnit, s *stream
 					a.fail("stranger", "mpegts-video", "segment %s contains an access unit that was never written (%d NALUs)", obj.uri, len(smp.data))
 					return
 				}
+				if !a.learnDTS(u, smp.dts, obj) {
+					return
+				}
 				into[u.track] = append(into[u.track], decUnit{u: u, msn: obj.msn, obj: obj, dts: smp.dts, pts: smp.pts, sync: u.ra})
 				a.streamOfTrack[u.track] = s
 			case "aac":
@@ -195,11 +198,51 @@ func (a *muxAnalysis) addObject(obj *mediaObj, into map[int][]decUnit, s *stream
 				return
 			}
 			a.streamOfTrack[u.track] = s
+			if !a.learnDTS(u, dts-fmp4Offset(a.cfg.tracks[u.track].clock), obj) {
+				return
+			}
 			into[u.track] = append(into[u.track], decUnit{u: u, msn: obj.msn, obj: obj, frag: fi, dts: dts, pts: dts + int64(smp.PTSOffset),
 				dur: int64(smp.Duration), sync: !smp.IsNonSyncSample, hasDur: true})
 			dts += int64(smp.Duration)
 		}
 	}
+}
+
+// learnDTS: the decode time of a unit of a B-frame stream is not written, the library derives it from the bitstream.
+// The first container the unit is decoded from supplies it; every later one (the part and the segment that hold
+// the same unit, a re-fetched object) must agree, decode times never decrease along the track and never exceed
+// the written presentation time.
+func (a *muxAnalysis) learnDTS(u *unit, observed int64, obj *mediaObj) bool {
+	ts := a.cfg.tracks[u.track]
+	if !ts.reorder {
+		return true
+	}
+	if u.dtsKnown {
+		if u.dts != observed {
+			a.fail("timestamp", "dts-differs-between-objects", "track %d unit %d: decode time %d in %s, %d where it was decoded before", u.track, u.idx, observed, obj.uri, u.dts)
+			return false
+		}
+		return true
+	}
+	if observed > u.pts {
+		a.fail("timestamp", "dts-after-pts", "track %d unit %d: decode time %d in %s is later than the written presentation time %d", u.track, u.idx, observed, obj.uri, u.pts)
+		return false
+	}
+	u.dts, u.dtsKnown = observed, true
+	if u.idx > 0 {
+		if p := ts.units[u.idx-1]; p.dtsKnown && p.dts > u.dts {
+			a.fail("timestamp", "dts-decreases", "track %d: unit %d has decode time %d, unit %d before it %d", u.track, u.idx, u.dts, p.idx, p.dts)
+			return false
+		}
+	}
+	if u.idx+1 < len(ts.units) {
+		if n := ts.units[u.idx+1]; n.dtsKnown && n.dts < u.dts {
+			a.fail("timestamp", "dts-decreases", "track %d: unit %d has decode time %d, unit %d after it %d", u.track, u.idx, u.dts, n.idx, n.dts)
+			return false
+		}
+	}
+	a.o.w.r.Probe("b-frame-decode-time-learnt")
+	return true
 }
 
 // expected start index of a track's decoded run, per the statement of C01.
@@ -392,7 +435,7 @@ func (a *muxAnalysis) oracleC01() {
 						a.fail("timestamp", "pts-offset", "track %d unit %d: presentation offset %d, written %d", ts.id, d.u.idx, d.pts-d.dts, d.u.pts-d.u.dts)
 						return
 					}
-					if d.u.idx+1 < len(ts.units) {
+					if d.u.idx+1 < len(ts.units) && (!ts.reorder || ts.units[d.u.idx+1].dtsKnown) {
 						if want := ts.units[d.u.idx+1].dts - d.u.dts; d.dur != want {
 							a.fail("timestamp", "duration", "track %d unit %d: duration %d, written units are %d apart", ts.id, d.u.idx, d.dur, want)
 							return
@@ -566,6 +609,9 @@ func (a *muxAnalysis) oracleC02() {
 				return true, true
 			}
 			return true, false
+		}
+		if lt.reorder && (!un.dtsKnown || !lt.units[start].dtsKnown) {
+			return false, true // B-frame stream, unit never decoded from a container: cannot tell
 		}
 		cmp, near := ratCmp(un.dts-lt.units[start].dts, lt.clock, cfg.segMin, !cfg.isFMP4() && (un.dts < 0 || lt.units[start].dts < 0))
 		if !lt.video && !cfg.isFMP4() && callsInSeg < 100 {
